@@ -232,6 +232,21 @@ func checkScalar(fd protoreflect.FieldDescriptor, v protoreflect.Value, r *valid
 		if sr.GetUuid() && !uuidRe.MatchString(s) {
 			add(out, p, "string.uuid", "value must be a valid UUID")
 		}
+	case protoreflect.BytesKind:
+		br := r.GetBytes()
+		if br == nil {
+			return
+		}
+		n := uint64(len(v.Bytes()))
+		if br.Len != nil && n != br.GetLen() {
+			add(out, p, "bytes.len", fmt.Sprintf("value length must be %d bytes", br.GetLen()))
+		}
+		if br.MinLen != nil && n < br.GetMinLen() {
+			add(out, p, "bytes.min_len", fmt.Sprintf("value length must be at least %d bytes", br.GetMinLen()))
+		}
+		if br.MaxLen != nil && n > br.GetMaxLen() {
+			add(out, p, "bytes.max_len", fmt.Sprintf("value must be at most %d bytes", br.GetMaxLen()))
+		}
 	case protoreflect.Int32Kind, protoreflect.Sint32Kind, protoreflect.Sfixed32Kind,
 		protoreflect.Int64Kind, protoreflect.Sint64Kind, protoreflect.Sfixed64Kind:
 		numeric(fd, r, p, out, func(b protoreflect.Value) int { return cmpI(v.Int(), b.Int()) })
